@@ -881,7 +881,7 @@ func (f *Facts) naturalPlugin(s *ir.Step, sf *StepFacts) {
 		// a stop condition whose source is produced ends it
 		if s.StopIf != nil {
 			r := f.Eval(s.StopIf)
-			if r.St == OK && r.V != false {
+			if r.St == OK && r.V != false && !literalFalse(s.StopIf) {
 				sf.Hangs = false
 				oc, _ := full["on_cancel"].(string)
 				switch {
@@ -1216,4 +1216,20 @@ func SortedKeys[V any](m map[string]V) []string {
 	}
 	sort.Strings(out)
 	return out
+}
+
+// literalFalse: a stop condition written as a YAML scalar that the bool schema reads as false never fires.
+func literalFalse(e *ir.Expr) bool {
+	if e == nil || e.K != "lit" {
+		return false
+	}
+	str, ok := e.V.(string)
+	if !ok {
+		return false
+	}
+	switch strings.ToLower(str) {
+	case "false", "no", "off", "n", "0", "disable", "disabled":
+		return true
+	}
+	return false
 }
